@@ -337,6 +337,102 @@ def gen_appscore_tie(rng):
     return _finish(rng, case)
 
 
+def gen_near(rng):
+    """NEAR-BOUNDARY stream: amounts with large denominators such that in some round a supporter's remaining
+    money differs from rho * utility by a relative 1e-7 ... 1e-15 in either direction (or by exactly 0), the
+    supporters' money differs from the cost by such a margin, or two projects' rho do.  Families:
+      overlap  -- a{v0, A..} is bought first and leaves v0 with s(1-x); b{v0, B.., BC..} costs
+                  nB * s(1-x) * (1+delta): v0 is short of / above his equal share by the factor delta.  In the
+                  cardinal variant a third project c{BC..} (score 1/10, so it comes last) costs what its
+                  supporters keep -- half way between what they keep when v0's shortfall is paid by them and
+                  what they would keep if it were ignored: affordable exactly when the shortfall is ignored;
+      twins    -- two projects with the same supporters and costs c, c(1+eps); tie-breaking prefers the dearer.
+    Plain lists, MultiProfiles, and MultiProfiles with multiplicities 10^4..10^5 plus single voters."""
+    from fractions import Fraction as Fr
+    k = rng.randrange(7, 16)
+    delta = rng.choice([1, 1, 1, -1, -1, 0]) * Fr(1, 10 ** k) * rng.choice([1, 2, 3, 5])
+    cardinal = rng.random() < 0.6
+    big = rng.random() < 0.3
+    fam = "twins" if rng.random() < 0.2 else "overlap"
+
+    def mult():
+        return rng.randrange(10 ** 4, 10 ** 5) if big and rng.random() < 0.6 else rng.choice([1, 1, 1, 2, 3])
+
+    if fam == "twins":
+        cls_ = [([0, 1], mult()), ([0, 1, 2], mult()), ([2], 1)]
+        if rng.random() < 0.5:
+            cls_.append(([], rng.choice([1, 2])))
+        n = sum(mu for _, mu in cls_)
+        s_ = Fr(rng.choice([1, 1, "3/2", "7/3", 10]))
+        nS = cls_[0][1] + cls_[1][1]
+        c0 = nS * s_ * Fr(rng.choice(["2/3", "3/4", "9/10", 1]))
+        costs = [c0, c0 * (1 + abs(delta) if delta else 1), s_ * 3 * n]
+        scores = {0: 1, 1: 1, 2: 1}
+        tb = rng.choice(["max_cost", ["perm", [1, 0, 2]], "lexico"])
+    else:
+        m0 = 1 if big else rng.choice([1, 1, 2])
+        cls_ = [([0, 1], m0)]                                  # v0: supports a and b
+        if rng.random() < 0.7:
+            cls_.append(([0], mult()))                         # A only
+        mB = mult() if rng.random() < 0.6 else 0
+        if mB:
+            cls_.append(([1], mB))                             # B only
+        mBC = mult()
+        cls_.append(([1, 2], mBC))                             # B and c
+        if rng.random() < 0.4:
+            cls_.append(([], rng.choice([1, 2])))
+        n = sum(mu for _, mu in cls_)
+        nA = sum(mu for S, mu in cls_ if 0 in S)
+        nB = sum(mu for S, mu in cls_ if 1 in S)
+        s_ = Fr(rng.choice([1, 1, "3/2", "7/3", 10, "1/3"]))
+        x = Fr(rng.randrange(20, 46), 100)
+        cA = nA * s_ * x
+        b0 = s_ * (1 - x)
+        cB = nB * b0 * (1 + delta)
+        pm = cB / nB                                           # what the others pay if v0's shortfall is ignored
+        pe = (cB - m0 * b0) / (nB - m0) if delta > 0 else pm   # what they really pay
+        if delta > 0:
+            cC = mBC * ((s_ - pe) + (s_ - pm)) / 2
+        else:
+            cC = mBC * (s_ - pe) * rng.choice([1, 1, 1 + Fr(1, 10 ** k)])
+        costs = [cA, cB, cC if cardinal else s_ * 3 * n]
+        scores = {0: 1, 1: 1, 2: Fr(1, 10)}
+        tb = rng.choice(["lexico", "min_cost", "max_cost"])
+    B = s_ * n
+    rng.shuffle(cls_)
+    m = 3
+    perm = list(range(m))
+    rng.shuffle(perm)
+    costs2 = [None] * m
+    for j in range(m):
+        costs2[perm[j]] = costs[j]
+    if isinstance(tb, list):
+        tb = ["perm", [tb[1][perm.index(j)] for j in range(m)]]
+
+    def ballot(S):
+        if cardinal:
+            return {str(perm[j]): pb.qs(scores[j]) for j in S}
+        return sorted(perm[j] for j in S)
+
+    case = {"costs": [pb.qs(c) for c in costs2], "budget": pb.qs(B), "ballot": "cardinal" if cardinal else "approval",
+            "sat": "Additive_Cardinal_Sat" if cardinal else "Cardinality_Sat", "tb": tb, "stream": "near",
+            "near_family": fam, "near_delta": pb.qs(delta)}
+    if big or rng.random() < 0.3:
+        case["ballots"] = [ballot(S) for S, _ in cls_]
+        case["ballot_mults"] = [mu for _, mu in cls_]
+        case["multi"] = True
+    else:
+        bl = [ballot(S) for S, mu in cls_ for _ in range(mu)]
+        rng.shuffle(bl)
+        case["ballots"] = bl
+        case["multi"] = rng.random() < 0.4
+    if rng.random() < 0.2:
+        case["inc"] = pb.qs(B / n * rng.choice([Fr(1, 4), Fr(1, 3), Fr(1, 10 ** 7)]) if rng.random() < 0.7 else Fr(1, 2))
+        if pb.F(case["inc"]) < max(costs) / 40:
+            case["inc"] = pb.qs(max(costs) / 40)
+    return _finish(rng, case)
+
+
 # ----------------------------------------------------------------------------------------------
 # building the library objects
 # ----------------------------------------------------------------------------------------------
@@ -346,7 +442,15 @@ def build(case):
     from pabutools import tiebreaking as T
 
     inst, projs = pb.make_instance(case["costs"], case["budget"])
-    prof = pb.make_profile(case["ballot"], inst, projs, case["ballots"], case.get("multi", False))
+    if case.get("ballot_mults"):
+        # a multiprofile given as distinct ballots + multiplicities (up to 10^5 copies of a ballot)
+        prof = pb.make_profile(case["ballot"], inst, projs, case["ballots"], True)
+        ks = list(prof.keys())
+        assert len(ks) == len(case["ballots"]), "ballots of a ballot_mults case must be pairwise distinct"
+        for k, mu in zip(ks, case["ballot_mults"]):
+            prof[k] = int(mu)
+    else:
+        prof = pb.make_profile(case["ballot"], inst, projs, case["ballots"], case.get("multi", False))
     cls = getattr(E, case["sat"])
     sp = prof.as_sat_profile(cls)
     sats = list(sp)
@@ -378,7 +482,8 @@ def tb_keys(case):
     if tb == "lexico":
         return [pb.qs(j) for j in range(m)]
     if tb == "app_score":
-        return [pb.qs(-sum(1 for b in case["ballots"] if j in b)) for j in range(m)]
+        bm = case.get("ballot_mults") or [1] * len(case["ballots"])
+        return [pb.qs(-sum(mu for b, mu in zip(case["ballots"], bm) if j in b or str(j) in b)) for j in range(m)]
     if tb == "min_cost":
         return [pb.qs(pb.F(c)) for c in case["costs"]]
     if tb == "max_cost":
@@ -446,7 +551,10 @@ def measure(case, utils, mults, keys):
     pool = [p for p in range(m) if sups[p] and costs[p] > 0 and p not in init]
     flags = {"mixed": False, "tie": False, "lazy": False, "lazy_tie": False,
              "zero_cost": any(sups[p] and costs[p] == 0 and p not in init for p in range(m)), "init": bool(init),
-             "unaffordable": False, "rounds": 0, "nonuniform_util": False, "mult2": any(x >= 2 for x in mults)}
+             "unaffordable": False, "rounds": 0, "nonuniform_util": False, "mult2": any(x >= 2 for x in mults),
+             "near_poor": False, "near_rich": False, "exact_boundary": False, "near_tie": False,
+             "near_afford": False, "bigmult": any(x >= 1000 for x in mults)}
+    EPS = Fraction(1, 10 ** 6)
     for p in pool:
         if len({U[i][p] for i in sups[p]}) > 1:
             flags["nonuniform_util"] = True
@@ -458,11 +566,25 @@ def measure(case, utils, mults, keys):
             r = _rho(costs[p], [(b[i], U[i][p], mults[i]) for i in sups[p]])
             if r is not None:
                 rh[p] = r
+        for p in rem:
+            tot = sum(mults[i] * b[i] for i in sups[p])
+            if tot != costs[p] and abs(tot - costs[p]) <= EPS * costs[p]:
+                flags["near_afford"] = True
         if not rh:
             flags["unaffordable"] = flags["unaffordable"] or bool(rem)
             break
-        pays = None
         best = min(rh.values())
+        for p in rh:
+            # a supporter whose money is within 1e-6 (relative) of rho * utility: just poor / just rich / exactly on it
+            for i in sups[p]:
+                need = rh[p] * U[i][p]
+                d = b[i] - need
+                if d == 0:
+                    flags["exact_boundary"] = True
+                elif abs(d) <= EPS * need:
+                    flags["near_poor" if d < 0 else "near_rich"] = True
+            if rh[p] != best and abs(rh[p] - best) <= EPS * best:
+                flags["near_tie"] = True
         tied = sorted(p for p in rh if rh[p] == best)
         if len(tied) > 1:
             flags["tie"] = True
